@@ -658,7 +658,47 @@ func (s *c13Sched) tr(format string, a ...any) {
 	s.trace = append(s.trace, fmt.Sprintf(format, a...))
 }
 
+// parkTargetConvoy makes sure that the convoy which will receive a burst is parked
+// before the burst's producer free-runs. An idle convoy (blocked in its select) is
+// sent a spurious wake token — the code tolerates those by design — so that it
+// loops to convoy.beforeOverflowPop and parks there; otherwise how far it gets
+// while the producer fills the channel would be up to the Go scheduler.
+func (s *c13Sched) parkTargetConvoy(pr *c13Prod) {
+	if !c13HasPopHook() {
+		return
+	}
+	s.mu.Lock()
+	q := s.mapEntry(pr.key)
+	nudge := false
+	if q != nil && q.refs.Load() >= 0 && !s.closed {
+		qi := s.qByPtr[q]
+		parked := false
+		for _, o := range s.parked {
+			if o.prod == nil && qi != nil && s.gidQueue[o.gid] == qi {
+				parked = true
+			}
+		}
+		nudge = !parked
+	}
+	s.mu.Unlock()
+	if nudge {
+		select {
+		case q.wake <- struct{}{}:
+		default:
+		}
+		synctest.Wait()
+		s.mu.Lock()
+		s.classes["idle_convoy_parked_for_burst"] = true
+		s.bindFresh()
+		s.nameParked()
+		s.mu.Unlock()
+	}
+}
+
 func (s *c13Sched) resume(p *c13Park) {
+	if p.prod != nil && p.prod.burst && !p.prod.freeRun && p.point == "emit.afterEnqueue" {
+		s.parkTargetConvoy(p.prod)
+	}
 	s.mu.Lock()
 	for i, q := range s.parked {
 		if q == p {
@@ -896,7 +936,12 @@ func c13TaskPoolCase(rt *rapid.T) {
 				acts = append(acts, c13Action{kind: "reset", w: 1})
 			}
 		}
-		if allowClose && step > nSteps/2 {
+		// Close is the shutdown-only path ("the pool must not be reused"): it is taken
+		// only while no EmitTask is in flight. (A producer racing Close may create a
+		// queue on a channel that Close recycled with tasks inside, and whether the
+		// woken convoys run or drop what is left is a coin toss of select — outside
+		// the statement, and not schedulable.)
+		if allowClose && step > nSteps/2 && s.liveProducers() == 0 {
 			acts = append(acts, c13Action{kind: "close", w: 1})
 		}
 		total := 0
